@@ -341,3 +341,11 @@ Definition list_step (l : list obj) (o : op) : list obj * outcome ret :=
 
 (* The coherence invariant: the dict answers exactly what the list says. *)
 Definition Inv (s : il) : Prop := forall a, iget (index s) a = spec_lookup (items s) a.
+
+(* get(key) / key in L for an id key, with the generated except clauses: a KeyError of the dict
+   look-up that is not caught escapes *)
+Definition get_model (s : il) (a : N) : outcome (option N) :=
+  match iget (index s) a with
+  | Some u => Ok (Some u)
+  | None => if caught_b PyKeyError get_caught then Ok None else Raise PyKeyError
+  end.
